@@ -68,6 +68,9 @@ def hwmonStep (st : HwmonDrvSt) (op : String) (a : KV) : HwmonDrvSt × String :=
     | .panic s => (st, s!"panic:{panicClass s}")
   | "hw.bindsensor" =>
     let sel : SensorSel := { platform := a.str "platform" "", index := a.int "index" 0 }
+    -- a pattern that does not compile as a regular expression (the streams use `*…` and an unbalanced `[`): matching fails
+    -- with an error on the first chip; without chips no device is found: an error either way
+    if sel.platform.startsWith "*" || sel.platform.contains '[' then (st, "err") else
     match bindSensor ciContains st.chips sel with
     | .ok p => (st, s!"ok input={p}")
     | .err _ => (st, "err")
